@@ -73,10 +73,18 @@ CLAIMED = {
               "retires exactly one), raising (an admission brings the permits up to the target), FIFO hand-over to the first "
               "pending waiter, an exit at or below the limit serves the head of the queue, target <= 0 refuses entry. "
               "Tie: trace acceptance against the real object, one event-loop handle per label, every field compared after "
-              "every label. The session-level clauses (handlers in flight, unanswered-request count) are covered by the "
-              "session scenarios of this check only as correspondence/oracle, not by a theorem (partial)."),
+              "every label. Session level (model/Throttle.v): the request-processing coroutines _throttled_request / _throttled_message "
+              "as lists of suspension points REGENERATED FROM THE SOURCE on every run (enter / leave the limiter's block, "
+              "cost sleep, handler, other awaits), interpreted against the limiter LTS; for EVERY well-bracketed shape and every "
+              "sequence of arrivals, first steps, resumptions, wake-ups, cancellations of queued and of running requests and limit "
+              "changes: every running handler holds a permit (so handlers in flight <= largest limit in force and <= target + "
+              "excess), no permit is held by a request that is gone, and requests ask for their permit in arrival order; the "
+              "generated shapes are shown to be of that kind by computation. Tie: every session workload (RPCSession and "
+              "MessageSession, cost-driven delays, processing timeouts) is replayed as a label trace and accepted by the model "
+              "with snapshots (sem value, free permits, holders, running handlers, queue length, ended requests, order of asking). "
+              "The unanswered-request count is covered by the oracle only."),
         note=TB + "asyncio.Semaphore semantics (locked/acquire/release/_wake_up_next, hand-over at wake-up) are modelled from CPython 3.12.1 and validated by the traces; the order in which resumed tasks run is left to the adversary (the theorems hold for every order).",
-        technique="Coq proof (LTS invariant by induction over label lists) + per-handle trace acceptance against the real Concurrency on a single-step event loop",
+        technique="Coq proof (LTS invariants by induction over label lists; coroutine shape produced by an AST translator and interpreted by the model) + per-handle trace acceptance against the real Concurrency on a single-step event loop + trace acceptance of real session workloads",
         ref='6/C13'),
     'C11': dict(
         text=("Proof (partial): for the big-step one-task semantics of nested timeout/ignore blocks (literal transcription of "
